@@ -288,6 +288,13 @@ def _anchored_group(pattern):
         if pattern.startswith("^(?:") and pattern.endswith(")"):
             return pattern[4:-1]
         return None
+    from ..values import Fmt
+
+    if isinstance(pattern, Fmt):
+        ps = pattern.parts
+        if len(ps) == 3 and ps[0] == "^(?:" and ps[2] == ")" and isinstance(ps[1], (str, SStr)):
+            return ps[1]
+        return None
     if not isinstance(pattern, SStr):
         return None
     parts = _flatten_concat(pattern.z)
